@@ -23,6 +23,10 @@ TOL_TIE = 1e-10
 TOL_EOS = 1e-4
 TOL_PHI = 1e-6
 LNPHI_LO, LNPHI_HI = -4.6, 4.44
+FINDING_KEY = "fixedV-numerical-negative-PR-pressure"
+MINIMAL_FINDING = ("KNOBS\n -numerical_fixed_volume true\n -force_numerical_fixed_volume true\nSOLUTION 1\n temp 0\n -water 2\n"
+                   "GAS_PHASE 1\n -fixed_volume\n -volume 1\n -temperature 0\n CO2(g) 112.232\nEND\n"
+                   "# phreeqc.dat: run completes; GAS_P=45.197, GAS_VM=0.0762, PR_PHI*PR_P=30.77 but 10^SI(CO2(g))=61.54")
 
 
 # ------------------------------------------------------------------------------------------------ helpers
@@ -149,7 +153,7 @@ def three_root(ctx, pre, tk, vm, pairs):
     vs = [vm * f for f in (0.999, 1.0, 1.001)]
     first = pm(ctx, "\n".join(pre + [eos_line(1.0, tk, v, pairs) for v in vs]) + "\n")
     ps = [parse_eos(ln) for ln in first]
-    if any(e is None for e in ps):
+    if any(e is None or not (e["p_of_vm"] > 0) for e in ps):
         return True
     second = pm(ctx, "\n".join(pre + [eos_line(e["p_of_vm"], tk, v, pairs) for e, v in zip(ps, vs)]) + "\n")
     es = [parse_eos(ln) for ln in second]
@@ -377,6 +381,9 @@ def judge(ctx, case, res, pre):
             chk("gases_columns", max(rel(row["pressure"], p), rel(row["total mol"], ntot), rel(row["volume"], vm * ntot)), TOL_EOS,
                 f"-gases columns (pressure, total mol, volume)=({row['pressure']}, {row['total mol']}, {row['volume']}) vs GAS_P={p}, sum GAS={ntot}, GAS_VM*n={vm * ntot}")
         if ideal:
+            if not (0.01 <= p <= 1000 or 0.01 <= ntot * R_ATM * tk / (vm * ntot) <= 1000):
+                cnt["outside_0.01_1000_atm"] = cnt.get("outside_0.01_1000_atm", 0) + 1
+                continue
             chk("ideal_PV_nRT", rel(p * vm, R_ATM * tk), TOL_EOS, f"ideal gas: P*Vm={p * vm} but RT={R_ATM * tk}")
             chk("ideal_sum_partial", rel(sum(peq), p), TOL_EOS, f"sum of partial pressures {sum(peq)} differs from P={p}")
             for i, g in enumerate(gases):
@@ -399,14 +406,33 @@ def judge(ctx, case, res, pre):
             cnt["eos_judged"] = cnt.get("eos_judged", 0) + 1
             chk("PR_EOS", rel(e["p_of_vm"], p), TOL_EOS, f"P={p} but Peng-Robinson at V_m={vm}, T={tk}, x={x} gives {e['p_of_vm']}")
         chk("sum_partial", rel(sum(pp), p), TOL_EOS, f"partial pressures sum to {sum(pp)}, total {p}")
+        if gtype != "fixedP" and res.get("nfv") and not (e["p_of_vm"] > 0):
+            # known departure (reported through ctx.finding): with numerical_fixed_volume the engine's calc_PR() doubles V_m
+            # while the PR pressure is <= 0; the converged state then has sum(10^SI/phi) = 2^k * P. Nothing else is judged here.
+            cnt["negative_eos_pressure_numerical_fixed_volume"] = cnt.get("negative_eos_pressure_numerical_fixed_volume", 0) + 1
+            worst = max((abs(phi[i] * pp[i] - 10 ** si[i]) / (phi[i] * p) for i in range(len(gases)) if n[i] > 0 and si[i] > -90), default=0.0)
+            if worst > TOL_EOS:
+                checks.append(("FINDING", worst, TOL_EOS,
+                               f"numerical fixed-volume path, PR pressure at the reported V_m={vm} is {e['p_of_vm']} <= 0: "
+                               f"fugacity phi*p differs from 10^SI by the relative amount {worst:.3g} (P={p}, T={tk})"))
+            continue
+        # phi: the reported P and V_m agree with the EOS only within 1e-4, so the EOS value of phi is taken at each of the
+        # consistent readings of the reported state: (P, V_m), (P_eos(V_m), V_m), (P, V_m(P))
+        alts = [e]
+        for (pa, va) in ((e["p_of_vm"], vm), (p, e["vm_of_p"])):
+            if pa > 0 and va > 0 and math.isfinite(pa) and math.isfinite(va):
+                ea = parse_eos(pm(ctx, "\n".join(pre + [eos_line(pa, tk, va, pairs)]) + "\n")[-1])
+                if ea is not None:
+                    alts.append(ea)
         for i, g in enumerate(gases):
             if n[i] <= 0:
                 continue
             chk("share", abs(pp[i] - x[i] * p) / p, TOL_EOS, f"{g}: PR_P={pp[i]} is not the share {x[i]} of {p}")
             m = e["comps"][i]
-            if m["zb"] > 0 and LNPHI_LO + 1e-3 < m["lnphi"] < LNPHI_HI - 1e-3:
+            if all(a["comps"][i]["zb"] > 0 and LNPHI_LO + 1e-3 < a["comps"][i]["lnphi"] < LNPHI_HI - 1e-3 for a in alts):
                 cnt["phi_judged"] = cnt.get("phi_judged", 0) + 1
-                chk("phi_vs_eos", rel(phi[i], math.exp(m["lnphi"])), TOL_PHI,
+                dev = min(rel(phi[i], math.exp(a["comps"][i]["lnphi"])) for a in alts)
+                chk("phi_vs_eos", dev, TOL_PHI,
                     f"{g}: PR_PHI={phi[i]} but the EOS gives {math.exp(m['lnphi'])} at P={p}, V_m={vm}, T={tk}, x={x}")
             else:
                 cnt["phi_clamped"] = cnt.get("phi_clamped", 0) + 1
@@ -450,6 +476,10 @@ def real_runs(ctx, exe, ok):
         if checks:
             judged += 1
         for name, val, tol, msg in checks:
+            if name == "FINDING":
+                ctx.finding(FINDING_KEY, msg, {"kind": "real", "case": dict(case), "minimal_replay": MINIMAL_FINDING})
+                stats["known_departure_rows"] = stats.get("known_departure_rows", 0) + 1
+                continue
             r = rels.setdefault(name, {"n": 0, "max": 0.0})
             r["n"] += 1
             if math.isfinite(val):
